@@ -125,7 +125,18 @@ func (f *Frame) execInstr(cur *blockCur, in ssa.Instruction) {
 				// the deferred call may or may not have been registered on the path to this return: both are covered
 				// by treating it as an unknown call here (anything may have happened to memory, nothing is learned)
 				f.c.note("conditional defer: the deferred call (registered in block %d) is treated as unknown code at the return in block %d", d.block.Index, cur.b.Index)
+				saved := map[string]string{}
+				if f.callerFrame == nil {
+					for _, n := range f.c.trackedCalls() {
+						if !f.trackedMatches(n, d.instr, d.call, d.call.StaticCallee()) {
+							saved[n] = cur.st.get(callsKey(n)) // the verifier's own call counters: unknown code cannot change them
+						}
+					}
+				}
 				f.havocAll(cur)
+				for n, v := range saved {
+					cur.st = cur.st.set(callsKey(n), v)
+				}
 				continue
 			}
 			f.execCall(cur, d.instr, d.call, nil)
